@@ -14,6 +14,7 @@ the deterministic seams that every engine relies on:
 
 import os
 import sys
+import random
 import contextvars
 import warnings
 
@@ -88,6 +89,7 @@ def fresh():
         ee.register_exception_extractor(klass, extractor)
     CLOCK.reset()
     UUID4.reset()
+    random.seed(20261002)
 
 
 def run_isolated(f, *a, **kw):
